@@ -323,7 +323,16 @@ func (tb *termBuilder) loadTerm(x *ssa.UnOp) *Term {
 			// field of a local struct: expose the stored values as alternatives
 			tb.indexStores(al.Parent())
 			fname := fieldName(a.X.Type(), a.Field)
-			t := &Term{Op: "field", Name: fname, Args: []*Term{tb.term(al)}}
+			baseT := tb.term(al)
+			if whole := tb.stores[al]; len(whole) == 1 {
+				baseT = tb.term(whole[0]) // struct copied once from another value
+			} else if len(whole) > 1 {
+				baseT = &Term{Op: "cell", Name: al.Comment, V: al}
+				for _, s := range whole {
+					baseT.Args = append(baseT.Args, tb.term(s))
+				}
+			}
+			t := &Term{Op: "field", Name: fname, Args: []*Term{baseT}}
 			return t
 		}
 		return &Term{Op: "field", Name: fieldName(a.X.Type(), a.Field), Args: []*Term{tb.term(a.X)}}
@@ -474,6 +483,9 @@ func (t *Term) Alts() []*Term {
 			return
 		}
 		seen[x] = true
+		if x.Op == "cycle" {
+			return // back reference to an enclosing phi: covered by its other edges
+		}
 		if x.Op == "phi" || x.Op == "cell" {
 			if len(x.Args) == 0 {
 				out = append(out, x)
